@@ -36,7 +36,7 @@ AMPLE = 1_000_000
 def gen_cases(seed, tier):
     rng = np.random.default_rng([seed, 1])
     nprob = 64 if tier == "quick" else 800
-    max_sweeps = 2500 if tier == "quick" else 12000
+    max_sweeps = 1500 if tier == "quick" else 12000
     devs = [1, 1, 1, 2, 3] if tier == "quick" else [1, 1, 1, 2, 3, 4, 8]
     cases = []
     for i in range(nprob):
@@ -45,6 +45,12 @@ def gen_cases(seed, tier):
             spec["S"] = int(rng.choice([65, 70, 97, 129]))
         init_mag = {"none": 0, "const": 12, "random": 4, "far": 4100}[spec["init"]] * spec["scale"]
         g, eps, rel = common.draw_gamma_eps(rng, spec["scale"], init_mag, max_sweeps)
+        if spec["structure"] == "dag" and rng.random() < 0.6:
+            # finite-horizon problems converge within n_states sweeps whatever gamma is: discount factors a
+            # hair below one, where the threshold eps*(1-g)/g is 5-9 decades below eps
+            g = float(rng.choice([0.99999, 0.999995, 1 - 1e-7]))
+            rel = float(10.0 ** rng.uniform(-4, 0))
+            eps = rel * spec["scale"]
         S = spec["S"]
         dev = int(rng.choice(devs))
         for (sv, test) in COMBOS:
@@ -139,6 +145,8 @@ def run_case(case):
     cap = 1000 if sv == "pi" else min(40000, need + 50)
     if sv == "sa":
         cap = min(40000, 2 * need + 50)
+    if struct.startswith("dag") and sv != "pi":
+        cap = 4 * S + 50
     res = target.solve(s, cap)
     it = int(res.info.iteration)
     if it >= cap:
